@@ -239,25 +239,28 @@ CHECKS = {
                     "harnesses; the type-31 decoder is bounded.",
     ),
     "C15": dict(
-        verus=[dict(unit="search")],
-        kani=[dict(crate="nexrad-data", files=["c15.rs"], host="src/aws/realtime.rs", tag="-aws", harnesses=[
-            dict(name="c15_search_all_shapes_n3", bounded="n = 3, all 10 shapes", what="result == newest populated index (or none), call count bound"),
+        verus=[dict(unit="search_newest"), dict(unit="latest_volume"), dict(unit="search")],
+        kani=[dict(crate="nexrad-data", files=["c15.rs"], host="src/aws/realtime.rs", tag="-aws", role="witness", harnesses=[
+            dict(name="c15_search_all_shapes_n3", bounded="n = 3, all 10 shapes", what="result == newest populated index (or none), call count bound, on the real async fn"),
             dict(name="c15_search_all_shapes_n4", bounded="n = 4, all 17 shapes", what="same, n = 4"),
-            dict(name="c15_search_all_shapes_n5", bounded="n = 5, all 26 shapes", what="same, n = 5"),
-            dict(name="c15_search_all_shapes_n8", bounded="n = 8, all 65 shapes", tier="thorough", what="same, n = 8"),
+            dict(name="c15_search_all_shapes_n5", bounded="n = 5, all 26 shapes", tier="thorough", what="same, n = 5"),
         ])],
-        trusted_base=STD_TRUST + KANI_TRUST + [
+        trusted_base=STD_TRUST + [
             "R-async: the awaited closure future is immediately ready, so the sequential call chain is the semantics (single task, no shared state inside search)",
             "R-mono: V := u64 (upload times are a total order; the code is parametric in V: PartialOrd + Clone)",
-            "std contracts: VecDeque::{from, is_empty, pop_front, push_back}",
+            "R-ghost-arg: search takes an extra Ghost(a) argument naming the array the closure presents (erased)",
+            "std contracts: VecDeque::{from, is_empty, pop_front, push_back}, Arc, AtomicI32, Option/Result combinators",
+            "list_chunks_in_volume(site, v, 1) returns the first chunk of directory v of an abstract bucket, or fails (network: assumed)",
         ],
-        not_decided=["that the newest directory is always among the probed ones for every size (direction logic of the rotated "
-                     "search): bounded Kani evidence for n <= 8 only; production size 999 is out of CBMC's reach",
-                     "get_latest_volume's index<->volume mapping and call counter (async glue over reqwest; async fns cannot be stubbed in Kani)"],
-        explanation="search extracted with async/await removed (R-async) and V := u64 (R-mono), statements unchanged: proved for "
-                    "all sizes: every probe in range, no overflow, both loops terminate, and the candidate only ever improves "
-                    "(the result is the best of every candidate considered). The functional result (newest directory found) is "
-                    "bounded: all shapes for n in {3,4,5,8} on the real async fn through a single-future executor.",
+        not_decided=["the reported call count (an Arc<AtomicI32> incremented once per closure call): its value and the n + O(log n) "
+                     "bound are not proved (bounded Kani witness only); the async runtime / reqwest are outside any contract"],
+        explanation="search extracted with async/await removed (R-async) and V := u64 (R-mono), statements unchanged. Proved for ALL "
+                    "sizes: under the property's hypothesis (one contiguous populated run in rotation order, strictly increasing "
+                    "times, target above all) the result is the populated index with the latest time, none iff all empty "
+                    "(unit search_newest: BFS coverage invariant + case analysis of the rotated binary search); "
+                    "get_latest_volume maps directories 1..=999 <-> indices 0..=998, covers all 999 and returns that directory "
+                    "(unit latest_volume, against the search contract); unconditional safety/termination/candidate-only-improves "
+                    "(unit search).",
     ),
     "C16": dict(
         verus=[dict(unit="chunk_id")],
